@@ -4,6 +4,7 @@ pub mod c01;
 pub mod c02;
 pub mod c03;
 pub mod c04;
+pub mod c05;
 pub mod c06;
 pub mod c07;
 pub mod c09;
@@ -23,6 +24,7 @@ pub fn lookup(id: &str) -> Option<fn(&Report, bool) -> Evidence> {
         "C02" => c02::run,
         "C03" => c03::run,
         "C04" => c04::run,
+        "C05" => c05::run,
         "C06" => c06::run,
         "C07" => c07::run,
         "C08" => c07::run_c08,
